@@ -108,6 +108,8 @@ deriving DecidableEq, Repr
 
 abbrev R := Except Fail
 
+deriving instance DecidableEq for Except
+
 /-- `HashMap<String, String>`: insertion order, keys unique -/
 abbrev Params := List (Text × Text)
 
